@@ -621,6 +621,7 @@ package netceptor
 //@   tags C17
 //@   requires pc != nil && pc.s != nil
 //@   site block * EXITS: [C17] requires waits(ctxdone(pc.context))
+//@   site block * NOLOCKHELD: [C17] requires nolocksheld()
 //@ func (*PacketConn).StartUnreachable$2
 //@   tags C17 C16
 //@   requires pc != nil && pc.s != nil && pc.unreachableSubs != nil
@@ -628,16 +629,20 @@ package netceptor
 //@   ghostflag published set call:Publish iter #1
 //@   site continue #1 NONEDROPPED: [C16] requires ok && msg.FromNode == lastcall("NodeID", 0) && msg.FromService == pc.localService ==> flag("published")
 //@   site block * EXITS: [C17] requires waits(iChan)
+//@   site block * NOLOCKHELD: [C17] requires nolocksheld()
 //@ func (*PacketConn).SubscribeUnreachable$1
 //@   tags C17
 //@   requires pc != nil && pc.unreachableSubs != nil
 //@   site block * EXITS: [C17] requires waits(ctxdone(pc.context))
+//@   site block * NOLOCKHELD: [C17] requires nolocksheld()
 //@ func SendPing$2
 //@   tags C17
 //@   site block * EXITS: [C17] requires waits(unrCh) || waits(ctxdone(ctxPing))
+//@   site block * NOLOCKHELD: [C17] requires nolocksheld()
 //@ func SendPing$3
 //@   tags C17
 //@   site block * EXITS: [C17] requires waits(ctxdone(ctxPing))
+//@   site block * NOLOCKHELD: [C17] requires nolocksheld()
 
 // The goroutine that owns the dial-side socket of an established stream: whenever it ends, the socket has been
 // closed (otherwise the ephemeral service name stays in the listener registry for ever).
@@ -645,6 +650,7 @@ package netceptor
 //@   tags C17
 //@   ghostflag socketclosed set call:PacketConner.Close
 //@   site block * EXITS: [C17] requires waits(doneChan)
+//@   site block * NOLOCKHELD: [C17] requires nolocksheld()
 //@   ensures SOCKETRELEASED: [C17] flag("socketclosed")
 
 // ---- C03: the datagram socket under a stream hands QUIC exactly the payload that was delivered to it and sends
@@ -695,6 +701,7 @@ package netceptor
 //@   site call Ping STEP: [C10] requires arg1 == target && (flag("probed") ? arg2 == lastarg("Ping", 2) + 1 : arg2 == 0)
 //@   site exit #1 FULLBUDGET: [C10] requires flag("probed") && lastarg("Ping", 2) >= lastcall("MaxForwardingHops", 0)
 //@   site block * EXITS: [C10 C17] requires waits(ctxdone(ctx))
+//@   site block * NOLOCKHELD: [C10 C17] requires nolocksheld()
 //@   loop #1
 //@     invariant BUDGET: [C10] 0 <= loopphi(0) && loopphi(0) <= 256 && (loopphi(0) == 0 ? !flag("probed") : flag("probed") && lastarg("Ping", 2) == loopphi(0) - 1)
 
@@ -817,6 +824,7 @@ package netceptor
 //@   tags C01 C17
 //@   requires s != nil
 //@   site block * EXITS: [C17] requires waits(ctxdone(s.context))
+//@   site block * NOLOCKHELD: [C17] requires nolocksheld()
 //@   site mapupdate map[string]CancelFunc ONLYIDLE: [C01] requires key == conn && value == s.connections[conn].CancelFunc && lastcall("Since", 0) > s.maxConnectionIdleTime
 
 // ---- C18: what a node announces about itself: only services registered for advertisement in the listener registry,
